@@ -46,8 +46,8 @@ func sortInts(a []int) {
 
 func init() {
 	register(&Check{
-		ID:   "C12",
-		Rule: "birth moments: every day of the birth-year set (quick 20 years, thorough ~400 years: stride-31 years over 1..9800 plus every other year 1890..2060) at 00:30 and 23:30, plus {t-2h, t-1s, t, t+1s, t+2h} around every Jie instant of those years; x gender {0,1} x start-offset school {1,2}; all 10 great periods; all annual and minor fortunes of one (gender, school) configuration per birth (rotating) and the first of each period for the others; monthly fortunes of the first year of every period. non-trivial = births within 2 h of a Jie instant or at 23:30, and configurations whose direction is backward",
+		ID:     "C12",
+		Rule:   "birth moments: every day of the birth-year set (quick 20 years, thorough ~400 years: stride-31 years over 1..9800 plus every other year 1890..2060) at 00:30 and 23:30, plus {t-2h, t-1s, t, t+1s, t+2h} around every Jie instant of those years; x gender {0,1} x start-offset school {1,2}; all 10 great periods; all annual and minor fortunes of one (gender, school) configuration per birth (rotating) and the first of each period for the others; monthly fortunes of the first year of every period. non-trivial = births within 2 h of a Jie instant or at 23:30, and configurations whose direction is backward",
 		Assume: []string{"school-1 offset is judged to within 2 two-hour slots (a distance between two slot-quantised moments is ambiguous by one slot at each end; the statement does not fix slot indexing); school-2 offset to within 1 minute", "male = gender 1; yang year = even exact year stem"},
 		Shards: func(tier string, seed int64) []Shard {
 			ys := c12Years(tier, seed)
